@@ -167,7 +167,7 @@ fn dfs(buf: &mut Vec<u8>, left: usize, term: &[u8], acc: &mut Acc, budget: &Budg
     acc.transitions += 1;
     check(buf, acc);
     // the same file without its final terminator
-    if buf.ends_with(term) && !buf.is_empty() {
+    if !term.is_empty() && buf.ends_with(term) && !buf.is_empty() {
         let n = buf.len() - term.len();
         check(&buf[..n], acc);
     }
@@ -287,6 +287,7 @@ enum Work {
     Sections,
     Seq(Vec<usize>, usize, &'static [u8]),
     Pos(usize, usize),
+    Joined(usize, usize, usize),
 }
 
 pub fn run(tier: Tier) -> i32 {
@@ -304,6 +305,15 @@ pub fn run(tier: Tier) -> i32 {
             for b in 0..LINES.len() {
                 work.push(Work::Seq(vec![a, b], depth, term));
             }
+        }
+    }
+    // records sharing a physical line (the record stream is not line based: a class record ends at its ':', a
+    // sourceFile header at its '}'): (i) all lines joined without any terminator, (ii) the first two lines joined,
+    // the rest LF-terminated
+    for a in 0..LINES.len() {
+        for b in 0..LINES.len() {
+            work.push(Work::Seq(vec![a, b], depth - 1, b""));
+            work.push(Work::Joined(a, b, depth - 2));
         }
     }
     let mut i = 0;
@@ -328,6 +338,13 @@ pub fn run(tier: Tier) -> i32 {
             dfs(&mut buf, depth - first.len().min(*depth), term, acc, budget);
             acc.sample(1, || json!({"file": esc(&buf), "checked": "has_line_info, is_valid, summary (5 fields) vs fold over iter()"}));
         }
+        Work::Joined(a, b, depth) => {
+            let mut buf = Vec::new();
+            buf.extend_from_slice(LINES[*a].as_bytes());
+            buf.extend_from_slice(LINES[*b].as_bytes());
+            buf.push(b'\n');
+            dfs(&mut buf, *depth, b"\n", acc, budget);
+        }
         Work::Pos(a, b) => {
             for f in &pos[*a..*b] {
                 acc.transitions += 1;
@@ -340,7 +357,7 @@ pub fn run(tier: Tier) -> i32 {
         prop: "C19",
         tier,
         level: "model_checking",
-        rule: format!("every file of <= {} lines over the 15-line alphabet (indented R8 comment, class, field, method with / without usable range, 0:0 method, compiler / compiler_version / min_api headers incl. valueless, non-numeric and 2^32, garbage, blank), each also without its final newline (thorough: also with CRLF); positional families ({} files): k = 0..=52 leading noise / header / class / blank / field lines before the first class+member pair, a class line followed by k lines and then the first member, the first line-mapped method after n in {{0,1,49,50,51,1000,20000}} unmapped ones with error / blank lines interspersed, with and without final newline, headers after everything; a single line-mapped method placed so that it straddles a multiple of 4096 / 65536 / 2^20 at every cut position. the 50-item window behind a class line filled with 44..54 items of which 0..3 are indented R8 comment lines; the metadata of every section(i..j) of three small files, with and without asking the parent first. Oracle: independent fold over the items of iter(). distinct = distinct metadata tuples", depth, npos),
+        rule: format!("every file of <= {} lines over the 15-line alphabet (indented R8 comment, class, field, method with / without usable range, 0:0 method, compiler / compiler_version / min_api headers incl. valueless, non-numeric and 2^32, garbage, blank), each also without its final newline (thorough: also with CRLF); the same files with all lines joined without any terminator (one line less) and with only the first two lines joined (records sharing a physical line); positional families ({} files): k = 0..=52 leading noise / header / class / blank / field lines before the first class+member pair, a class line followed by k lines and then the first member, the first line-mapped method after n in {{0,1,49,50,51,1000,20000}} unmapped ones with error / blank lines interspersed, with and without final newline, headers after everything; a single line-mapped method placed so that it straddles a multiple of 4096 / 65536 / 2^20 at every cut position. the 50-item window behind a class line filled with 44..54 items of which 0..3 are indented R8 comment lines; the metadata of every section(i..j) of three small files, with and without asking the parent first. Oracle: independent fold over the items of iter(). distinct = distinct metadata tuples", depth, npos),
         bounds: json!({"depth": depth, "alphabet": LINES, "positional_files": npos}),
         assumptions: vec!["the statement defines the answers as functions of the record stream; the stream itself is the subject of C05/C06".into()],
         trusted_base: vec!["rustc/std".into(), "the fold in pgmc/src/props/c19.rs".into()],
